@@ -316,3 +316,68 @@ pub fn b64_expected_admissible(c: &OpCase) -> bool {
     let input: Vec<u8> = c.ins.iter().map(|x| x.0.to_bytes_le()[0]).collect();
     b64_decode(&input, c.op == "b64.url", c.p[0] == 1).is_some()
 }
+
+// ------------------------------------------------------------------ variable-length base64 (honest executions)
+
+pub const B64V_OPS: &[&str] = &["b64v.std", "b64v.url"];
+const VM: usize = 32;
+
+thread_local! {
+    /// (decoded value the circuit computed, if synthesis got that far)
+    static B64V_OUT: std::cell::RefCell<Option<Vec<u8>>> = const { std::cell::RefCell::new(None) };
+}
+
+/// p = [n]; ins = n characters (n a multiple of 4, n <= 32, padded form).
+pub fn b64v_gen_case(rng: &mut Prng, op: &str) -> OpCase {
+    let mut c = b64_gen_case(rng, if op == "b64v.url" { "b64.url" } else { "b64.std" });
+    // regenerate until padded and within the capacity; every length 0, 4, ..., 32 (the full buffer included)
+    let mut guard = 0;
+    while (c.p[0] != 1 || c.ins.len() > VM) && guard < 200 {
+        c = b64_gen_case(rng, if op == "b64v.url" { "b64.url" } else { "b64.std" });
+        guard += 1;
+    }
+    if rng.chance(1, 4) {
+        // the input that fills the capacity
+        let a = alphabet(op == "b64v.url");
+        c.ins = (0..VM).map(|_| Fe(Fq::from(a[rng.usize(64)] as u64))).collect();
+    }
+    c.op = op.into();
+    c.p = vec![c.ins.len() as u64];
+    c
+}
+
+pub fn b64v_body<L: Layouter<F>>(c: &OpCase, s: &ZkStdLib, l: &mut L, w: &[Value<F>]) -> Result<(), Error> {
+    use midnight_circuits::{instructions::base64::{Base64Vec, Base64VarInstructions}, types::InnerValue, vec::AssignedVector};
+    let data: Value<Vec<u8>> = Value::from_iter(w.iter().copied()).map(|v: Vec<F>| v.iter().map(|x| x.to_bytes_le()[0]).collect());
+    let chip = s.base64();
+    let input: Base64Vec<F, VM, 4> = chip.assign_var_base64(l, data)?;
+    let out: AssignedVector<F, AssignedByte<F>, 24, 3> = if c.op == "b64v.url" { chip.var_decode_base64url(l, &input)? } else { chip.var_decode_base64(l, &input)? };
+    out.value().map(|v| B64V_OUT.with(|o| *o.borrow_mut() = Some(v)));
+    Ok(())
+}
+
+/// Nothing is published (the vectors' cells are crate-private): the honest
+/// execution must be satisfiable exactly for well-formed inputs, and the value
+/// the witness generator computed must be the reference decoding.
+pub fn b64v_check(c: &OpCase, _publics: &[Fq]) -> Result<bool, String> {
+    let input: Vec<u8> = c.ins.iter().map(|x| x.0.to_bytes_le()[0]).collect();
+    let got = B64V_OUT.with(|o| o.borrow_mut().take());
+    match b64_decode(&input, c.op == "b64v.url", true) {
+        None => Ok(false),
+        Some(full) => {
+            // (as for the fixed-length form, the output has 3/4 of the padded input's length:
+            //  the bytes that stand for padding characters are zeros)
+            let expect = &full[..];
+            match got {
+                Some(v) if v == expect => Ok(true),
+                Some(v) => Err(format!("variable-length decoding of {:?} gives {:?}, the reference gives {:?}", String::from_utf8_lossy(&input), v, expect)),
+                None => Err("the circuit is satisfied but no decoded value was computed".into()),
+            }
+        }
+    }
+}
+
+pub fn b64v_expected_admissible(c: &OpCase) -> bool {
+    let input: Vec<u8> = c.ins.iter().map(|x| x.0.to_bytes_le()[0]).collect();
+    input.len() % 4 == 0 && b64_decode(&input, c.op == "b64v.url", true).is_some()
+}
